@@ -59,7 +59,7 @@ def cases(draw):
         d["incl"] = incl
     elif mode == "regex":
         ent = draw(st.sampled_from(REGEXES))
-        d["size"] = ["regex", ent[0]]
+        d["size"] = ["regex", ent[0]] + ([int(ent[4])] if len(ent) > 4 else [])
         d["incl"] = incl
     else:
         d["size"] = ["regex", b"$"]
